@@ -108,6 +108,20 @@ Definition jit_set_pos (j : journal) (it : jit) (pos : N * N) : jit :=
                end in
     mkJit cid idx ci' (j_bad it).
 
+(* ---- partition.JIterator.Get (RANGE queries), the window between the chunk iterator's io.EOF and the chunk selector's look
+   at the chunks: the chunk iterator has reported EOF on the journal as it was (`it` stands at the end of its chunk there);
+   the selector - ensureChkIt after advanceChunk - sees the journal j', which a writer's flush may have extended meanwhile.
+   With a following chunk in j' the iterator goes on there (true); without one the selector answers with the end of the
+   last chunk as it is NOW, and `restore` = the position is put back to eofPos when that is a later end of the same chunk
+   (`jit.pos.CId == eofPos.CId && jit.pos.Idx > eofPos.Idx`; the comparison the other way round never restores: false) *)
+Definition eof_step (restore : bool) (j' : journal) (it : jit) : jit * bool :=
+  let eofpos := jit_pos it in
+  let '(it', ok) := ensure j' (advance it) in
+  if ok then (it', true)
+  else if restore && (j_cid it' =? fst eofpos)%N && (snd eofpos <? j_idx it')%N
+       then (mkJit (fst eofpos) (snd eofpos) None (j_bad it'), false)
+       else (it', false).
+
 (* ------------------------------------------------------------------ LogEventIterator *)
 Record oev := mkOev { o_src : nat; o_ts : Z; o_msg : bytes; o_flds : bytes }.   (* a delivered event *)
 Record lei := mkLei { l_it : jit; l_flds : bytes }.                            (* l_flds: Fields of the reused LogEvent *)
@@ -497,3 +511,6 @@ Definition repo_clears_fields : bool := true.
 (* true = provider.GetOrCreate drops a cached cursor when the request names another Pos than the cursor's and builds a
    new one (the code); false = it re-positioned the cached cursor (the code before the repair) *)
 Definition repo_strict_pos : bool := true.
+(* true = partition.JIterator.Get keeps the position of the first unread record when the selector answers with a later
+   end of the same chunk (the code, since /repo ee8da2c) *)
+Definition repo_restores_eof : bool := true.
